@@ -8,9 +8,10 @@ All numbers travel as integers: every value lies on a dyadic grid and is sent mu
 numpy float computation is exact and equals the model's integer computation.
 
 Kinds of findings: `spec` only when a clause of the statement fails on the REAL output as decided by a Lean verified checker
-(checkClean / checkCleanLe / checkPeaks) or by a direct evaluation that uses neither the implementation's own sub-results nor
-the model (returned row is not an input row, numeric field returned as text, caller-owned input modified, None although voxels
-exceed the threshold, exception raised inside cryocat on an input of the quantifier).  Every comparison with the model is `corr`.
+(checkCleanCore / checkCleanCoreLe / checkPeaks) or by a direct evaluation that uses neither the implementation's own sub-results nor
+the model (returned row is not an input row, None although voxels exceed the threshold, exception raised inside cryocat on an input of
+the quantifier).  What the statement is silent about is `corr`: caller-owned input modified, a numeric field returned as text, a
+narrower returned dtype, survivors out of row order.  Every comparison with the model is `corr`.
 """
 import os, io, ast, copy, math, hashlib, tempfile, contextlib, traceback
 import numpy as np
@@ -49,6 +50,10 @@ RULE = ("85% particle lists: 1..400 particles (quick mostly <= 80) on the 2^-10 
         "unit in the last place; sent as integers * 2^-52), 50% carry DECIMAL angles with 0..3 decimals (sent as IEEE bit patterns: the model only "
         "copies and compares them), the maps are float64 / float32 / int16 / int32 / int64 arrays, the list float64 / float32 / int64, and 30% of "
         "the boxes with three different side lengths are handed in as MRC or EM file PATHS written without cryocat (file axes section, row, column). "
+        "float32 maps (arrays, MRC and EM files) keep float32 SCORES but in 75% of them the THRESHOLD is a python float off the float32 grid: one or a "
+        "few float64 steps below / above a voxel's score (what float(np.nextafter(s, -+inf)) and s -+ tiny give); 15% of the maps with <= 5000 voxels "
+        "carry DECIMAL scores np.float32(k/10000) with a decimal threshold k_j/10000 or a 5-decimal value between two scores (sent as integers * 2^-64): "
+        "whether the voxel under the threshold counts is decided by the real numbers (audit 3: numpy >= 2 compared in float32; repaired by C07-fix-1). "
         "OUTSIDE the quantifier, never generated: NaN scores and NaN group ids (the statement speaks of an 'equal or better score' and of 'groups': "
         "NaN is neither ordered nor equal to itself; today a NaN id makes the particle vanish and a NaN score ranks first under keep_greater - "
         "recorded for C08's K-class, not a finding of C07); maps / lists given as python lists or tuples (cryomap.read and rot_angles_load refuse "
@@ -60,6 +65,8 @@ ASSUMPTIONS = [
     "on the fine grid 2^-30 coordinates (< 2^39 units) and their sums / differences are exact in float64; the three squares, two additions and the square root of np.linalg.norm "
     "each round with relative error <= 2^-53, so the computed distance is within 2^-51 relative of the true one; generated lists keep |dist^2 - d^2| >= 2^-40 * d^2 for every pair "
     "of a group (i.e. |dist - d| / d >= 2^-41, a factor 2^10 above the error), hence `norm(diff) < d` decides like the exact integer comparison of the model",
+    "the threshold reaches the comparison as np.float64 (anchor threshold-compared-as-float64, theorem peak_threshold_double_documented): numpy compares a float32 or float64 "
+    "map with a float64 scalar in double precision, which is exact for both, so `scores_map > threshold` decides like the model's comparison of the real numbers",
     "scipy.spatial.KDTree.query_ball_point(c, r) = brute-force closed ball dist <= r on integer coordinates (probed each run)",
     "np.argsort / sorted order candidates by score; how equal scores are ordered is irrelevant to the theorems (any non-increasing order) and cases with tied scores are judged by the verified checker only",
     "pandas: boolean-mask selection keeps row order, concat keeps order, read_csv(header=None) parses repr(float) exactly",
@@ -82,6 +89,51 @@ CMP = {"Lt": "lt", "LtE": "le", "Gt": "gt", "GtE": "ge"}
 
 def _cmp(node):
     return CMP.get(type(node.ops[0]).__name__, "other")
+
+
+NEG = {"lt": "ge", "ge": "lt", "le": "gt", "gt": "le"}
+
+
+def _cmp_in_context(fn, node, what, where_ok=()):
+    """the operator a comparison DECIDES with, read together with what encloses it (audit 3, item 2): the Compare must be the whole
+    right-hand side of an assignment, a conjunct of an `if` test, or the first argument of one of the calls named in `where_ok`;
+    a directly enclosing `~` / `not` / np.logical_not is folded into the operator (not (a >= b) is a < b).  Anything else between
+    the comparison and its statement (another call, a subscript, arithmetic, a negation above an `and`) fails the anchor, so the
+    model keeps the DOCUMENTED operator instead of silently following a node that no longer decides alone."""
+    parent = {}
+    for p_ in ast.walk(fn):
+        for ch in ast.iter_child_nodes(p_):
+            parent[id(ch)] = p_
+    op = _cmp(node)
+    cur, neg, conj = node, False, False
+    while True:
+        par = parent.get(id(cur))
+        if par is None:
+            raise core.AnchorMissing(f"{what}: the comparison is not part of a statement")
+        if isinstance(par, ast.UnaryOp) and isinstance(par.op, (ast.Invert, ast.Not)):
+            if conj:
+                raise core.AnchorMissing(f"{what}: the comparison sits under a negated `and`: `{ast.unparse(par)[:120]}`")
+            neg = not neg
+        elif isinstance(par, ast.Call) and ast.unparse(par.func).replace(" ", "") in ("np.logical_not", "numpy.logical_not") and par.args[:1] == [cur] and len(par.args) == 1 and not par.keywords:
+            if conj:
+                raise core.AnchorMissing(f"{what}: the comparison sits under a negated `and`: `{ast.unparse(par)[:120]}`")
+            neg = not neg
+        elif isinstance(par, ast.BoolOp) and isinstance(par.op, ast.And):
+            conj = True  # a conjunct (also a negated one: `x and not (a > b)` decides with a <= b); a negation ABOVE the `and` fails
+        elif isinstance(par, ast.Assign) and par.value is cur:
+            break
+        elif isinstance(par, (ast.If, ast.While)) and par.test is cur:
+            break
+        elif isinstance(par, ast.Call) and ast.unparse(par.func).replace(" ", "") in where_ok and par.args[:1] == [cur]:
+            break
+        else:
+            raise core.AnchorMissing(f"{what}: the comparison no longer decides alone, it is enclosed by `{ast.unparse(par)[:140]}`")
+        cur = par
+    if neg:
+        if op not in NEG:
+            raise core.AnchorMissing(f"{what}: negated comparison with operator {op}")
+        op = NEG[op]
+    return op
 
 
 _LOGGERS = ("print", "warnings.warn", "warn", "logging.debug", "logging.info", "logging.warning", "logging.error", "logger.debug",
@@ -603,7 +655,7 @@ def translate(src):
                      and V.text(x.left).startswith("geom.point_pairwise_dist("), "clean_by_distance: the comparison `d_cut_idx = dist < d_cut` (dist = geom.point_pairwise_dist(pos[j, :], pos), d_cut = distance_in_voxels) is not found in this form")
 
     def a_dist_cmp():
-        return _cmp(dist_compare())
+        return _cmp_in_context(CV().fn, dist_compare(), "clean_by_distance: `d_cut_idx = dist < d_cut`")
 
     def a_self():
         V = CV()
@@ -693,13 +745,28 @@ def translate(src):
         return first(V, lambda x: isinstance(x, ast.Call) and n(x.func) == "sorted" and any(k.arg == "key" for k in x.keywords),
                      "scores_extract_particles: `scored_coords = sorted(zip(s_ind.T, scores_map[...]), key=lambda x: x[1], reverse=True)` is not found")
 
-    def b_thr():
+    def thr_call():
         V = EV()
-        c = first(V, lambda x: isinstance(x, ast.Call) and n(x.func) == "np.where" and x.args and isinstance(x.args[0], ast.Compare)
-                  and len(x.args[0].ops) == 1 and "cryomap.read(scores_map)" in V.text(x.args[0].left)
-                  and V.text(x.args[0].comparators[0]).startswith("ALT(scores_threshold,"),
-                  "scores_extract_particles: `t_idx = np.where(scores_map > threshold)` is not found in this form")
-        return _cmp(c.args[0])
+
+        def thr_text(x):
+            t = V.text(x.args[0].comparators[0])
+            return t[len("np.float64("):-1] if t.startswith("np.float64(") and t.endswith(")") else t
+        return first(V, lambda x: isinstance(x, ast.Call) and n(x.func) == "np.where" and x.args and isinstance(x.args[0], ast.Compare)
+                     and len(x.args[0].ops) == 1 and "cryomap.read(scores_map)" in V.text(x.args[0].left)
+                     and thr_text(x).startswith("ALT(scores_threshold,"),
+                     "scores_extract_particles: `t_idx = np.where(scores_map > np.float64(threshold))` is not found in this form")
+
+    def b_thr():
+        c = thr_call()
+        return _cmp_in_context(EV().fn, c.args[0], "scores_extract_particles: `np.where(scores_map > np.float64(threshold))`", where_ok=("np.where",))
+
+    def b_thr_double():
+        """the threshold is handed to the comparison as np.float64: a float32 map is then compared in double precision (numpy >= 2 would
+        round a python-float threshold to float32 first and lose voxels just above it: defect found by audit 3, repaired by C07-fix-1)"""
+        V = EV()
+        cmpn = thr_call().args[0]
+        t = cmpn.comparators[0]
+        return isinstance(t, ast.Call) and n(t.func) == "np.float64" and len(t.args) == 1 and not t.keywords and V.text(t.args[0]).startswith("ALT(scores_threshold,")
 
     def b_ball():
         V = EV()
@@ -716,7 +783,7 @@ def translate(src):
         c = first(V, lambda x: isinstance(x, ast.Compare) and len(x.ops) == 1 and V.text(x.comparators[0]) == f"EACH({S_})[1]"
                   and isinstance(x.left, ast.Subscript) and isinstance(x.ops[0], (ast.Lt, ast.LtE, ast.Gt, ast.GtE)),
                   "scores_extract_particles: `coord_to_score[nearby_coord_tuple] <= score` is not found in this form")
-        return _cmp(c)
+        return _cmp_in_context(V.fn, c, "scores_extract_particles: `coord_to_score[nearby_coord_tuple] <= score`")
 
     def b_sorted():
         V = EV()
@@ -900,6 +967,7 @@ def translate(src):
     coords = src.anchor("get_coordinates:xyz+shifts", a_coords)
     norm = src.anchor("point_pairwise_dist:euclidean-norm", a_norm)
     thr = src.anchor("scores_extract_particles:scores_map>threshold", b_thr)
+    thr_dbl = src.anchor("scores_extract_particles:threshold-compared-as-float64", b_thr_double)
     ball = src.anchor("scores_extract_particles:query_ball_point-radius", b_ball)
     scmp = src.anchor("scores_extract_particles:<=score", b_score_cmp)
     srt = src.anchor("scores_extract_particles:sorted-reverse", b_sorted)
@@ -977,6 +1045,7 @@ def shiftColumns : List String := {core.lean_str_list(coords[1])}
 def distIsEuclidNorm : Bool := {b(True if norm is None else norm)}
 -- tmana.scores_extract_particles
 def peakThrCmp : Cmp := {cmp(thr, DOC["thr"])}
+def peakThrInDouble : Bool := {b(True if thr_dbl is None else thr_dbl)}
 def peakBallRadius : String := {core.lean_str(ball or DOC["ball"])}
 def peakScoreCmp : Cmp := {cmp(scmp, DOC["scmp"])}
 def peakSortDesc : Bool := {b(srt)}
@@ -1433,15 +1502,41 @@ def _decimal_angles(rng, L, dec):
     return out
 
 
+def _decimal_f32(rng, c):
+    """a float32 score map of DECIMAL scores (np.float32(k / 10000), k distinct) with a decimal threshold (python float k_j / 10000 or a
+    5-decimal value between two scores): what a user of an MRC score map types.  float32(0.1) is 0.10000000149.. > 0.1, float32(0.7) is
+    0.69999998807.. < 0.7: whether the voxel under the threshold counts is decided by the real numbers.  Everything is sent as
+    integers at scale 2^64 (float32 values in [1e-4, 1) and float64 decimals in that range are multiples of 2^-64)."""
+    from fractions import Fraction
+    N = len(c["scores"])
+    SC = 2 ** 64
+    ks = rng.sample(range(1, 10000), N)
+    sc = []
+    for k_ in ks:
+        fr = Fraction(float(np.float32(k_ / 10000))) * SC
+        assert fr.denominator == 1
+        sc.append(int(fr))
+    order = sorted(ks, reverse=True)
+    j = rng.randrange(0, min(N, 40))
+    dec = Fraction(order[j], 10000) if rng.random() < 0.7 else Fraction(2 * order[j] - 1, 20000)
+    thr = Fraction(float(dec)) * SC  # the python float the user's decimal becomes
+    assert thr.denominator == 1
+    return dict(c, scores=sc, sscale=SC, thr=int(thr), then=[], score_bits="decimal-f32", thr_kind="decimal", field="decimal", thr_grid="decimal")
+
+
 def _vary_peaks(rng, case):
     """inputs a user naturally hands in (audit 2, items 1 and 5, H3): scores needing all 52 mantissa bits, decimal angles, float32 / integer
     typed maps and lists, maps given as MRC / EM file PATHS (boxes with three different side lengths)"""
     c = dict(case, then=[dict(t) for t in case.get("then") or []])
+    if len(case["scores"]) <= 5000 and rng.random() < 0.15:
+        c = _decimal_f32(rng, c)
     vals = c["scores"]
     mx = max([abs(v) for v in vals] + [abs(c["thr"])] + [abs(t["thr"]) for t in c["then"]])
     k = 50 - mx.bit_length()
-    c["score_bits"] = "<=24"
-    if rng.random() < 0.4 and k >= 26:
+    c.setdefault("score_bits", "<=24")
+    if c["score_bits"] == "decimal-f32":
+        pass
+    elif rng.random() < 0.4 and k >= 26:
         low = {v: rng.randrange(1, 2 ** k) for v in set(vals)}
         top = max(vals)
 
@@ -1460,7 +1555,8 @@ def _vary_peaks(rng, case):
         c["scores"] = [f(v) for v in vals]
         c["sscale"] = 2 ** 52  # values in [0, 1/4): what a float64 cross-correlation map holds
         c["score_bits"] = "52"
-    small = c["score_bits"] == "<=24" and mx < 2 ** 24
+    # a float32 map needs float32 SCORES; the threshold is a python float of the user and need not be a float32 (audit 3, item 1)
+    small = (c["score_bits"] == "<=24" and max(abs(v) for v in vals) < 2 ** 24) or c["score_bits"] == "decimal-f32"
     L = len(c["anglist"])
     dec = None
     if rng.random() < 0.5:
@@ -1484,6 +1580,29 @@ def _vary_peaks(rng, case):
     else:
         c["map_dtype"] = "float32" if (small and rng.random() < 0.25) else "float64"
         c["ang_dtype"] = rng.choice(["float64", "float64", "float32", "int32", "int64", "int16"])
+    if c["score_bits"] == "decimal-f32":
+        c["map_dtype"] = "float32"  # the scores ARE float32 values; only a float32 map holds them as such
+    elif c["map_dtype"] == "float32" and rng.random() < 0.75:
+        # scores stay float32 values (v * 2^28 at a 2^28 finer scale), the threshold moves OFF the float32 grid: one float64 step, or a few,
+        # below / above a voxel's score (float(np.nextafter(s, -+inf)) and s -+ tiny).  As a real number the voxel is above / below it;
+        # rounded to float32 the threshold IS the voxel's score.
+        sh = 28
+        top = max(vals)
+        vals_set = set(vals)
+
+        def g(t):
+            delta = rng.choice([1, 1, 2, 2 ** 3, 2 ** 12, 2 ** 20, 2 ** 26])
+            if t in vals_set:
+                return t * 2 ** sh + rng.choice([-delta, -delta, 0, delta])  # a voxel's score: just below (voxel counts), equal, just above
+            if t + 1 in vals_set:
+                return (t + 1) * 2 ** sh - delta  # just below a voxel's score: the voxel counts
+            return top * 2 ** sh + max(1, t - top) * rng.choice([delta, 2 ** sh])
+        c["thr"] = g(c["thr"])
+        for t in c["then"]:
+            t["thr"] = g(t["thr"])
+        c["scores"] = [v * 2 ** sh for v in vals]
+        c["sscale"] = c["sscale"] * 2 ** sh
+        c["thr_grid"] = "off the float32 grid"
     ld = ["float64", "float64"]
     if dec == 0:
         ld += ["int64", "int64", "float32"]
@@ -1752,7 +1871,7 @@ def _run_peaks(case):
     subs = _subcases(case)
     nx, ny, nz = case["dims"]
     # caller-owned, shared by every call
-    Sm = (np.array(case["scores"], dtype=np.float64).reshape(nx, ny, nz) / case["sscale"]).astype(case.get("map_dtype", "float64"))
+    Sm = (np.array(case["scores"], dtype=np.float64).reshape(nx, ny, nz) / float(case["sscale"])).astype(case.get("map_dtype", "float64"))
     Am = np.array(case["angles"], dtype=np.float64).reshape(nx, ny, nz).astype(case.get("ang_dtype", "float64"))
     L = _angle_array(case, case["anglist"])
     calls = []
@@ -1835,16 +1954,16 @@ def _judge_clean(sub, o, rs):
     if "error" in o:
         out.append(_raised(o))
         if o.get("input_modified"):
-            out.append(dict(kind="spec", clause="caller-owned-input-modified", detail=f"the DataFrame passed to Motl(...) differs after the call: {o['input_modified']}"))
+            out.append(dict(kind="corr", clause="caller-owned-input-modified", detail=f"the DataFrame passed to Motl(...) differs after the call: {o['input_modified']}"))
         return out
     model = rs[0]
     if "error" in model:
         return [dict(kind="corr", clause="model-rejects-input", detail=str(model))]
     n = len(sub["rows"])
     if o.get("input_modified"):
-        out.append(dict(kind="spec", clause="caller-owned-input-modified", detail=f"the DataFrame passed to Motl(...) differs after clean_by_distance: {o['input_modified']}"))
+        out.append(dict(kind="corr", clause="caller-owned-input-modified", detail=f"the DataFrame passed to Motl(...) differs after clean_by_distance: {o['input_modified']}"))
     if o.get("textual"):
-        out.append(dict(kind="spec", clause="numeric-field-returned-as-text", detail=f"columns {o['textual']} of the cleaned list are not numeric: { {c: o['dtypes'].get(c) for c in o['textual']} }"))
+        out.append(dict(kind="corr", clause="numeric-field-returned-as-text", detail=f"columns {o['textual']} of the cleaned list are not numeric: { {c: o['dtypes'].get(c) for c in o['textual']} }"))
         return out
     kept = o["kept"]
     if kept is None or not o["unchanged"] or any(i < 0 for i in kept):
@@ -1864,9 +1983,11 @@ def _judge_clean(sub, o, rs):
             badg = [f"{g['group']/SC}:{g['clause']}" for g in chk["groups_core"] if not g["ok"]][:4]
             out.append(dict(kind="spec", clause=chk["clause_core"], detail=f"verified checker checkCleanCore rejects the {what}" + (f"; the result is rejected under `dist <= d` as well ({chk['clause_core_le']})" if tie else "")
                             + (f"; groups failing on their own sub-list: {badg}" if badg else "")))
+        # no separate verdict on the per-group answers: a result the order-free checker accepts passes in every group on its own
+        # (theorem checkIndependentCore_of_core), so `independent_core` can only be false when `ok_core` is; a driver answering otherwise
+        # would contradict the theorem and is reported as a broken correspondence
         elif not indep:
-            badg = [f"{g['group']/SC}:{g['clause']}" for g in chk["groups_core"] if not g["ok"]][:4]
-            out.append(dict(kind="spec", clause="groups-affect-each-other", detail=f"verified checker, applied to each group's sub-list, rejects {badg}: {what}"))
+            out.append(dict(kind="corr", clause="driver-contradicts-checkIndependentCore_of_core", detail=f"ok_core is true but independent_core is false: {what}"))
         elif not chk["in_order"]:
             out.append(dict(kind="corr", clause="remaining-not-in-input-order", detail=f"the survivors of a group are not in the order of the input rows (separation, domination and independence hold; the statement is silent about order): {what}"))
     if not out:
@@ -1887,13 +2008,13 @@ def _judge_peaks(sub, o, rs):
     if "error" in o:
         out.append(_raised(o))
         if o.get("input_modified"):
-            out.append(dict(kind="spec", clause="caller-owned-input-modified", detail=f"changed by the call: {o['input_modified']}"))
+            out.append(dict(kind="corr", clause="caller-owned-input-modified", detail=f"changed by the call: {o['input_modified']}"))
         return out
     model = rs[0]
     if "error" in model:
         return [dict(kind="corr", clause="model-rejects-input", detail=str(model))]
     if o.get("input_modified"):
-        out.append(dict(kind="spec", clause="caller-owned-input-modified", detail=f"changed by scores_extract_particles: {o['input_modified']}"))
+        out.append(dict(kind="corr", clause="caller-owned-input-modified", detail=f"changed by scores_extract_particles: {o['input_modified']}"))
     nb, L = sub["numbering"], len(sub["anglist"])
     sup = [(s, a) for s, a in zip(sub["scores"], sub["angles"]) if s > sub["thr"]]
     res = o["result"]
@@ -1908,7 +2029,7 @@ def _judge_peaks(sub, o, rs):
         return out
     else:
         if o.get("textual"):
-            out.append(dict(kind="spec", clause="numeric-field-returned-as-text", detail=f"columns {o['textual']} of the extracted list are not numeric: {o['dtypes']}"))
+            out.append(dict(kind="corr", clause="numeric-field-returned-as-text", detail=f"columns {o['textual']} of the extracted list are not numeric: {o['dtypes']}"))
             return out
         if o.get("note") or not o["exact"]:
             out.append(dict(kind="spec", clause="peak-does-not-carry-voxel-score-position-angles-or-is-below-threshold", detail="a peak value is not on the input grid " + o.get("note", "")))
@@ -2003,7 +2124,7 @@ def stats(case, obs, resps):
           "peaks.order": case["order"], "peaks.numbering": case["numbering"], "peaks.list_as": case.get("list_as"),
           "peaks.threshold": case.get("thr_kind", "corpus"), "peaks.result": o.get("result", "error"), "peaks.field": case.get("field", "corpus"),
           "peaks.flat_box": min(case["dims"]) <= 2, "peaks.keywords_omitted": bool(case.get("omit")),
-          "peaks.calls_on_same_input": 1 + len(case.get("then") or []), "peaks.score_mantissa_bits": case.get("score_bits", "<=24"),
+          "peaks.calls_on_same_input": 1 + len(case.get("then") or []), "peaks.score_mantissa_bits": case.get("score_bits", "<=24"), "peaks.threshold_grid": case.get("thr_grid", "as the scores"),
           "peaks.maps_as": case.get("maps_as", "array"), "peaks.map_dtype": case.get("map_dtype", "float64"), "peaks.angle_map_dtype": case.get("ang_dtype", "float64"),
           "peaks.list_dtype": case.get("list_dtype", "float64"), "peaks.angle_values": case.get("ang_values", "quarter degrees"),
           "peaks.three_distinct_sides": len(set(case["dims"])) == 3}
@@ -2255,7 +2376,7 @@ DOC_BODIES = {
         '...Assign v2=scores_map.mean()',
         '...Assign v3=scores_map.std(ddof=1)',
         '...Assign v1=v2+sigma_threshold*v3',
-        '.Assign v4=np.where(scores_map>v1)',
+        '.Assign v4=np.where(scores_map>np.float64(v1))',
         '.Assign v5=len(v4[0])',
         '.If v5==0',
         '..Return returnNone',
